@@ -48,7 +48,8 @@ type mext struct {
 	id    int
 	vals  map[string]mval
 	types map[string]reflect.Type
-	real  *extLookup
+	form  int // Go representation of the real lookup (extForm*); the model's answers do not depend on it
+	real  env.ExternalLookup
 }
 
 type node struct {
@@ -270,26 +271,146 @@ func (x *extLookup) Type(name string) (reflect.Type, error) {
 	return env.NilType, errExtUnknown
 }
 
+// env.ExternalLookup is an interface: what a host installs may be a pointer, but just as well a map, a
+// struct passed by value or a func with methods. The forms below all answer exactly like the *extLookup
+// they are made from (the model does not know the form); they differ in the Go representation only.
+// map, struct and func are types Go cannot compare with ==.
+const (
+	extFormPtr    = iota // *extLookup
+	extFormMap           // extMap: a named map type with value-receiver methods
+	extFormStruct        // extStruct: a struct holding maps, passed by value
+	extFormFunc          // extFunc: a named func type with methods
+	extFormHandle        // extHandle: a comparable struct (one pointer field), passed by value
+	nExtForms
+)
+
+var extFormNames = [nExtForms]string{"pointer", "map", "struct-value", "func", "comparable-struct-value"}
+
+func extFormUncomparable(f int) bool {
+	return f == extFormMap || f == extFormStruct || f == extFormFunc
+}
+
+func normExtForm(f int) int { return ((f % nExtForms) + nExtForms) % nExtForms }
+
+// extMap: the host's table itself is the lookup. kind 'v' → reflect.Value, 't' → reflect.Type,
+// the entry {'z', ""} is present when a miss returns the zero Value / nil Type.
+type extKey struct {
+	kind byte
+	name string
+}
+type extMap map[extKey]interface{}
+
+func (m extMap) Get(name string) (reflect.Value, error) {
+	if v, ok := m[extKey{'v', name}]; ok {
+		return v.(reflect.Value), nil
+	}
+	if _, zero := m[extKey{'z', ""}]; zero {
+		return reflect.Value{}, errExtUnknown
+	}
+	return env.NilValue, errExtUnknown
+}
+
+func (m extMap) Type(name string) (reflect.Type, error) {
+	if t, ok := m[extKey{'t', name}]; ok {
+		rt, _ := t.(reflect.Type) // a nil type is stored as a nil interface
+		return rt, nil
+	}
+	if _, zero := m[extKey{'z', ""}]; zero {
+		return nil, errExtUnknown
+	}
+	return env.NilType, errExtUnknown
+}
+
+type extStruct struct {
+	vals       map[string]reflect.Value
+	types      map[string]reflect.Type
+	zeroOnMiss bool
+}
+
+func (x extStruct) Get(name string) (reflect.Value, error) {
+	return (&extLookup{x.vals, x.types, x.zeroOnMiss}).Get(name)
+}
+
+func (x extStruct) Type(name string) (reflect.Type, error) {
+	return (&extLookup{x.vals, x.types, x.zeroOnMiss}).Type(name)
+}
+
+// extFunc: one host callback serves both questions (like http.HandlerFunc serves http.Handler).
+type extFunc func(name string, wantType bool) (reflect.Value, reflect.Type, error)
+
+func (f extFunc) Get(name string) (reflect.Value, error) {
+	v, _, err := f(name, false)
+	return v, err
+}
+
+func (f extFunc) Type(name string) (reflect.Type, error) {
+	_, t, err := f(name, true)
+	return t, err
+}
+
+type extHandle struct{ p *extLookup }
+
+func (x extHandle) Get(name string) (reflect.Value, error) { return x.p.Get(name) }
+func (x extHandle) Type(name string) (reflect.Type, error) { return x.p.Type(name) }
+
+// inForm wraps base in the given representation.
+func inForm(base *extLookup, form int) env.ExternalLookup {
+	switch normExtForm(form) {
+	case extFormMap:
+		m := extMap{}
+		for k, v := range base.vals {
+			m[extKey{'v', k}] = v
+		}
+		for k, t := range base.types {
+			m[extKey{'t', k}] = t
+		}
+		if base.zeroOnMiss {
+			m[extKey{'z', ""}] = true
+		}
+		return m
+	case extFormStruct:
+		return extStruct{base.vals, base.types, base.zeroOnMiss}
+	case extFormFunc:
+		return extFunc(func(name string, wantType bool) (reflect.Value, reflect.Type, error) {
+			if wantType {
+				t, err := base.Type(name)
+				return reflect.Value{}, t, err
+			}
+			v, err := base.Get(name)
+			return v, nil, err
+		})
+	case extFormHandle:
+		return extHandle{base}
+	}
+	return base
+}
+
 // newExts builds the three external lookups of a case (fresh objects per case).
-// They never know dotted names and never hold scopes.
-func newExts() [4]*mext {
+// They never know dotted names and never hold scopes. forms[i-1] is the Go
+// representation of lookup i (missing: pointer).
+func newExts(forms []int) [4]*mext {
 	mk := func(id int, vals map[string]string, addressable string, types map[string]int) *mext {
-		m := &mext{id: id, vals: map[string]mval{}, types: map[string]reflect.Type{}, real: &extLookup{vals: map[string]reflect.Value{}, types: map[string]reflect.Type{}, zeroOnMiss: id%2 == 0}}
+		base := &extLookup{vals: map[string]reflect.Value{}, types: map[string]reflect.Type{}, zeroOnMiss: id%2 == 0}
+		m := &mext{id: id, vals: map[string]mval{}, types: map[string]reflect.Type{}}
 		for k, s := range vals {
 			if k == addressable {
 				p := new(string)
 				*p = s
-				m.real.vals[k] = reflect.ValueOf(p).Elem()
+				base.vals[k] = reflect.ValueOf(p).Elem()
 				m.vals[k] = mval{k: 's', s: s, addr: 1}
 			} else {
-				m.real.vals[k] = reflect.ValueOf(s)
+				base.vals[k] = reflect.ValueOf(s)
 				m.vals[k] = mval{k: 's', s: s}
 			}
 		}
 		for k, id := range types {
-			m.real.types[k] = typeOf(id)
+			base.types[k] = typeOf(id)
 			m.types[k] = typeOf(id)
 		}
+		if id-1 < len(forms) {
+			m.form = normExtForm(forms[id-1])
+		}
+		m.real = inForm(base, m.form)
 		return m
 	}
 	return [4]*mext{
